@@ -54,6 +54,11 @@ def cases(tier):
         # (IoU 1/3 >= 1/4) fails the decision threshold 1/2 in a multi-instance group evaluated AFTER a single-instance group
         out.append({"name": "pipe_grouped_%s" % sm, "what": "pipe_grouped", "sym_metric": sm})
     out.append({"name": "tp_positive_two_configs", "what": "tp_pos", "sym_metric": "DSC"})
+    # a handler that configures exactly the evaluated metrics (and no others): still every zero-tp scenario reports the configured values
+    for sm in ("DSC", "RVD"):
+        out.append({"name": "direct_partial_%s" % sm, "what": "direct", "sym_metric": sm, "partial": True})
+        for sc in LH.SCEN:
+            out.append({"name": "pipe_partial_MATCHED_INSTANCE_%s_%s" % (sc, sm), "what": "pipe", "input_type": "MATCHED_INSTANCE", "scenario": sc, "sym_metric": sm, "partial": True})
     return out
 
 
@@ -108,9 +113,10 @@ def run_case(case):
     IA = T.mod("panoptica.instance_approximator")
     Metric = MM.Metric
     what = case["what"]
-    handler, vs, base = LH.build(T)
-    metrics = list(LH.METRICS5)
     sm = case["sym_metric"]
+    partial = bool(case.get("partial"))
+    metrics = [sm] if partial else list(LH.METRICS5)
+    handler, vs, base = LH.build(T, metrics=metrics)
     base = base + [v == LH.RESULTS.index("ONE") for k, v in vs.items() if k != "std" and k[0] != sm]
     n_pred, n_ref = z3.Int("n_pred"), z3.Int("n_ref")
     base = base + [n_pred >= 0, n_ref >= 0]
@@ -120,7 +126,7 @@ def run_case(case):
         base += base_b
 
     def decode(m):
-        d = {"what": what, "cfg": LH.decode_cfg(vs, m, jsonable)}
+        d = {"what": what, "cfg": LH.decode_cfg(vs, m, jsonable), "metrics": list(metrics)}
         if what in ("direct", "handle"):
             d["n_pred"], d["n_ref"] = jsonable(n_pred, m), jsonable(n_ref, m)
             d["cls"] = case.get("cls")
@@ -205,8 +211,9 @@ def real_handler(case, mode, expect):
     from panoptica.panoptica_evaluator import panoptic_evaluate, _handle_zero_instances_cases
     RC.use_serial_pool(True)
     what = case["what"]
-    hd = LH.real_handler(case["cfg"])
-    metrics = [getattr(Metric, m) for m in LH.METRICS5]
+    mnames = case.get("metrics") or list(LH.METRICS5)
+    hd = LH.real_handler(case["cfg"], metrics=mnames)
+    metrics = [getattr(Metric, m) for m in mnames]
     obs = {}
     bad = None
 
@@ -216,7 +223,7 @@ def real_handler(case, mode, expect):
     def check(res, scen, npred, nref):
         if int(res.tp) != 0 or int(res.fp) != npred or int(res.fn) != nref:
             return "tp_is_zero: tp/fp/fn = %s/%s/%s for %d predicted and %d reference instances" % (res.tp, res.fp, res.fn, npred, nref)
-        for m in LH.METRICS5:
+        for m in mnames:
             exp = LH.value_of(LH.RESULTS.index(case["cfg"]["%s:%s" % (m, scen)]))
             try:
                 got = getattr(res, SQ[m])
